@@ -40,7 +40,7 @@ func (Engine) Generate(cfg simkit.RunConfig) (any, bool) {
 		return genWorkload(cfg, genOpts{maxTxns: 6, pessRate: 0.4, faults: true, topo: true, backend: "M"}), true
 	case "nofault":
 		return genWorkload(cfg, genOpts{maxTxns: 6, pessRate: 0.4, faults: false, topo: true, backend: "M"}), true
-	case "crash":
+	case "crash", "crashfaults":
 		return genCrash(cfg, "M"), true
 	case "faults":
 		return genFaults(cfg, "M"), true
